@@ -10,11 +10,13 @@
   `Ro.Share.Inv` (RoProofs/ShareBasic.lean; preserved by every event: RoProofs/ShareInv.lean,
   ShareSub.lean) — resp. {sub, unsub i, src, connect, disconnect} for the connectable.
 
-  Where the pinned tree deviates (the nil `sourceSubscription` dereference with a source that
-  terminates synchronously on a terminal the configuration resets on; DESIGN.md C07(iv)):
-  the model shows it too; `…_partial` theorems hold on the explicit decidable sub-domain `Cfg.Safe`,
-  the full-strength versions carry the leak term `panics`, and `nilDeref_witness` / `leak_witness`
-  are kernel-checked counter-examples that replay on the real code (known_findings.jsonl).
+  History: the pinned tree re-read the shared `sourceSubscription` without `mu` at the end of R3 and
+  dereferenced nil when a synchronous terminal had already reset it (DESIGN.md C07(iv)), leaking the
+  subscriber's reference; fix commit a510ca9 uses the local `currentSourceSubscription`. The repaired
+  behaviour is the model (`r3tail`); `nilDeref_regression` shows the model does not do that any more, and
+  the correspondence reports the old behaviour as a difference if it returns.
+  Still open (outside the universal theorems, which quantify over plain event sequences): the late
+  release under concurrency / a re-entrant source, `lateRelease_witness`.
 -/
 import RoProofs.ShareProps
 import RoProofs.ConnectableProofs
@@ -35,34 +37,10 @@ theorem upstream_at_most_one (cfg : Cfg) (evs : List Event) : (run cfg evs).live
 theorem upstream_live_while_listened (cfg : Cfg) (evs : List Event) (h : openSubs (run cfg evs) ≠ []) :
     (run cfg evs).live = 1 := open_imp_live (inv_run cfg evs) h
 
-/-- **refCount = number of live subscribers**, full strength: plus one per nil dereference so far
-    (each leaks the reference of the subscriber whose `Subscribe` panicked) -/
+/-- **refCount = number of live subscribers** — every configuration, every synchronous prefix,
+    every event sequence -/
 theorem refCount_eq (cfg : Cfg) (evs : List Event) :
-    (run cfg evs).refCount = (openSubs (run cfg evs)).length + (run cfg evs).panics := (inv_run cfg evs).count
-
-/- full statement, FALSE on the pinned tree (witness: `nilDeref_witness`):
-     ∀ cfg evs, (run cfg evs).refCount = (openSubs (run cfg evs)).length                      -/
-/-- `_partial`: on every configuration whose synchronous prefixes never end with a terminal the
-    flags reset on (in particular every purely hot source), the count is exact -/
-theorem refCount_eq_partial (cfg : Cfg) (hsafe : cfg.Safe) (evs : List Event) :
-    (run cfg evs).refCount = (openSubs (run cfg evs)).length := by
-  have := refCount_eq cfg evs
-  rw [panics_run_safe cfg (Or.inl hsafe) evs] at this
-  simpa using this
-
-/-- full strength on the repaired tree (repo_fixes/C11-share-local-sourceSubscription.patch, the
-    model's `fixed` branch): every configuration, every prefix -/
-theorem refCount_eq_fixed (cfg : Cfg) (hfix : cfg.fixed = true) (evs : List Event) :
-    (run cfg evs).refCount = (openSubs (run cfg evs)).length := by
-  have := refCount_eq cfg evs
-  rw [panics_run_safe cfg (Or.inr hfix) evs] at this
-  simpa using this
-
-/-- a reference is leaked only by a `sub` that creates a generation over a prefix that is not `SafePre` -/
-theorem leak_only_by_nonsafe_prefix (cfg : Cfg) (evs : List Event) (e : Event) :
-    (step cfg (run cfg evs) e).panics = (run cfg evs).panics ∨
-    ((step cfg (run cfg evs) e).panics = (run cfg evs).panics + 1 ∧ e = .sub ∧ (run cfg evs).subject = none ∧
-      cfg.fixed = false ∧ ∃ k, SafePre cfg.flags (cfg.pre k) = false) := panics_step cfg (inv_run cfg evs) e
+    (run cfg evs).refCount = (openSubs (run cfg evs)).length := (inv_run cfg evs).count
 
 /-- **upstream subscribed at 0→1, joined otherwise**: a new subscriber subscribes the source iff
     there is no current generation, and then exactly once -/
@@ -89,20 +67,12 @@ theorem joiner_receives_connector_replay (cfg : Cfg) (evs : List Event) (g : Nat
   have := join_active_trace cfg (inv_run cfg evs) h ha
   exact ⟨this.1, this.2.1, this.2.2.1⟩
 
-/-- **released at 1→0 iff ResetOnRefCountZero** (and no terminal latched — a listener is open, so
-    the generation is live — and no leaked reference): the last listener leaves ⇒ upstream released -/
-theorem last_unsubscribe_releases_partial (cfg : Cfg) (hsafe : cfg.Safe) (evs : List Event) (i : Nat)
+/-- **released at 1→0 iff ResetOnRefCountZero** (no terminal latched: a listener is open, so the
+    generation is live): the last listener leaves ⇒ upstream released, shared pair cleared -/
+theorem last_unsubscribe_releases (cfg : Cfg) (evs : List Event) (i : Nat)
     (hz : cfg.flags.onZero = true) (ho : openSubs (run cfg evs) = [i]) :
     (step cfg (run cfg evs) (.unsub i)).live = 0 ∧ (step cfg (run cfg evs) (.unsub i)).subject = none :=
-  unsub_last_releases cfg (inv_run cfg evs) hz (panics_run_safe cfg (Or.inl hsafe) evs) ho
-
-/-- … at full strength on the repaired tree -/
-theorem last_unsubscribe_releases_fixed (cfg : Cfg) (hfix : cfg.fixed = true) (evs : List Event) (i : Nat)
-    (hz : cfg.flags.onZero = true) (ho : openSubs (run cfg evs) = [i]) :
-    (step cfg (run cfg evs) (.unsub i)).live = 0 ∧ (step cfg (run cfg evs) (.unsub i)).subject = none :=
-  unsub_last_releases cfg (inv_run cfg evs) hz (panics_run_safe cfg (Or.inr hfix) evs) ho
-
-/- full statement, FALSE on the pinned tree (witness: `leak_witness`): the same without `cfg.Safe`. -/
+  unsub_last_releases cfg (inv_run cfg evs) hz ho
 
 /-- … and without `ResetOnRefCountZero`, or while another listener stays, `unsub` never touches
     the upstream subscription -/
@@ -110,11 +80,8 @@ theorem unsubscribe_keeps_upstream (cfg : Cfg) (evs : List Event) (i : Nat)
     (h : cfg.flags.onZero = false ∨ 2 ≤ (openSubs (run cfg evs)).length) :
     (step cfg (run cfg evs) (.unsub i)).live = (run cfg evs).live ∧
     (step cfg (run cfg evs) (.unsub i)).total = (run cfg evs).total ∧
-    (step cfg (run cfg evs) (.unsub i)).subject = (run cfg evs).subject := by
-  apply unsub_keeps cfg i (inv_run cfg evs)
-  rcases h with h | h
-  · exact Or.inl h
-  · exact Or.inr (Or.inl h)
+    (step cfg (run cfg evs) (.unsub i)).subject = (run cfg evs).subject :=
+  unsub_keeps cfg i (inv_run cfg evs) h
 
 /-- **after the source terminates**: nobody stays open, the upstream subscription is gone; the shared
     pair is cleared iff the flags reset on that terminal (so the next subscriber starts a fresh
@@ -171,40 +138,23 @@ theorem unsubscribe_keeps_traces (cfg : Cfg) (evs : List Event) (i k : Nat) :
     ((step cfg (run cfg evs) (.unsub i)).subs k).trace = ((run cfg evs).subs k).trace :=
   unsub_traces cfg (run cfg evs) i k
 
-/-! ### deviation witnesses (kernel-checked; replayed on the real code as known findings) -/
+/-! ### regression examples for the repaired nil dereference (fix a510ca9) -/
 
 /-- `Share()` (publish, all three flags) over a source that completes synchronously (`Empty`-like) -/
 def shareOverEmpty : Cfg := { conn := .publish, flags := ⟨true, true, true⟩, pre := fun _ => [.complete] }
-
-/-- the nil dereference: the subscriber gets `Complete`, the recovered panic is dropped as an
-    `Error`, and the reference count stays at 1 with nobody listening -/
-theorem nilDeref_witness :
-    (run shareOverEmpty [.sub]).drops = [.error .nilDeref] ∧
-    traces (run shareOverEmpty [.sub]) = [[.complete]] ∧
-    (run shareOverEmpty [.sub]).refCount = 1 ∧ openSubs (run shareOverEmpty [.sub]) = [] ∧
-    (run shareOverEmpty [.sub]).panics = 1 := by decide
-
-theorem shareOverEmpty_not_safe : ¬ shareOverEmpty.Safe := by
-  intro h
-  have := h 0
-  simp [shareOverEmpty, SafePre, firstTerminal, Flags.resetsOn, Ev.isTerminal] at this
 
 /-- first upstream subscription completes synchronously, the later ones are hot -/
 def shareEmptyThenHot : Cfg :=
   { conn := .publish, flags := ⟨true, true, true⟩, pre := fun k => if k = 0 then [.complete] else [] }
 
-/-- consequence of the leak: with `ResetOnRefCountZero`, after the only listener has left the
-    upstream subscription is still live (refCount stuck at 1) -/
-theorem leak_witness :
-    openSubs (run shareEmptyThenHot [.sub, .sub, .unsub 1]) = [] ∧
-    (run shareEmptyThenHot [.sub, .sub, .unsub 1]).live = 1 ∧
-    (run shareEmptyThenHot [.sub, .sub, .unsub 1]).refCount = 1 := by decide
-
-/-- the same two scenarios on the repaired tree: no dropped error, no leaked reference, released -/
-theorem fixed_witness :
-    (run { shareOverEmpty with fixed := true } [.sub]).drops = [] ∧
-    (run { shareOverEmpty with fixed := true } [.sub]).refCount = 0 ∧
-    (run { shareEmptyThenHot with fixed := true } [.sub, .sub, .unsub 1]).live = 0 := by decide
+/-- what used to be the nil dereference and its leaked reference: the subscriber gets `Complete`,
+    nothing is dropped, the reference is given back, and a later hot execution is released when its
+    last listener leaves -/
+theorem nilDeref_regression :
+    (run shareOverEmpty [.sub]).drops = [] ∧ traces (run shareOverEmpty [.sub]) = [[.complete]] ∧
+    (run shareOverEmpty [.sub]).refCount = 0 ∧
+    (run shareEmptyThenHot [.sub, .sub, .unsub 1]).live = 0 ∧
+    (run shareEmptyThenHot [.sub, .sub, .unsub 1]).refCount = 0 := by decide
 
 /-! ### non-vacuity -/
 
@@ -212,8 +162,6 @@ theorem fixed_witness :
 def shareHot : Cfg := { conn := .publish, flags := ⟨true, true, true⟩, pre := fun _ => [] }
 /-- `ShareReplay(2)` over a hot source: operator_connectable.go:197-208 -/
 def shareReplay2Hot : Cfg := { conn := .replay 2, flags := ⟨true, false, false⟩, pre := fun _ => [] }
-
-theorem shareHot_safe : shareHot.Safe := Cfg.Hot.safe (fun _ => rfl)
 
 /-- **late release** (re-entrant source / concurrency; `nrun` = runs with events nested inside the
     source's `Subscribe`, K-tied like the plain ones): subscriber 0 creates generation 0; inside the
@@ -226,7 +174,6 @@ theorem shareHot_safe : shareHot.Safe := Cfg.Hot.safe (fun _ => rfl)
 theorem lateRelease_witness :
     openSubs (nrun shareHot [.subNested [.src (.error (.user 1)), .sub, .unsub 1], .plain (.unsub 0)]) = [] ∧
     (nrun shareHot [.subNested [.src (.error (.user 1)), .sub, .unsub 1], .plain (.unsub 0)]).live = 1 ∧
-    (nrun shareHot [.subNested [.src (.error (.user 1)), .sub, .unsub 1], .plain (.unsub 0)]).panics = 0 ∧
     (nrun shareHot [.subNested [.src (.error (.user 1)), .sub, .unsub 1], .plain (.unsub 0)]).refCount = 0 := by decide
 
 /-- plain runs are what the driver executes for plain case lines -/
@@ -297,14 +244,10 @@ end Ro.C11
 #print axioms Ro.C11.upstream_at_most_one
 #print axioms Ro.C11.upstream_live_while_listened
 #print axioms Ro.C11.refCount_eq
-#print axioms Ro.C11.refCount_eq_partial
-#print axioms Ro.C11.refCount_eq_fixed
-#print axioms Ro.C11.leak_only_by_nonsafe_prefix
 #print axioms Ro.C11.subscribe_upstream_iff_no_generation
 #print axioms Ro.C11.later_subscribers_join
 #print axioms Ro.C11.joiner_receives_connector_replay
-#print axioms Ro.C11.last_unsubscribe_releases_partial
-#print axioms Ro.C11.last_unsubscribe_releases_fixed
+#print axioms Ro.C11.last_unsubscribe_releases
 #print axioms Ro.C11.unsubscribe_keeps_upstream
 #print axioms Ro.C11.after_source_terminal
 #print axioms Ro.C11.latched_subscriber_is_replayed
@@ -312,10 +255,7 @@ end Ro.C11
 #print axioms Ro.C11.fresh_execution_hot
 #print axioms Ro.C11.same_notifications
 #print axioms Ro.C11.unsubscribe_keeps_traces
-#print axioms Ro.C11.nilDeref_witness
-#print axioms Ro.C11.shareOverEmpty_not_safe
-#print axioms Ro.C11.leak_witness
-#print axioms Ro.C11.fixed_witness
+#print axioms Ro.C11.nilDeref_regression
 #print axioms Ro.C11.lateRelease_witness
 #print axioms Ro.C11.plain_runs
 #print axioms Ro.C11.connectable_upstream_at_most_one
